@@ -683,10 +683,10 @@ structure SS where
   lh : Option Str
   lo : Option Str
 
-/-- the loop state of the translated `build_groups` in the order the translator lists it (by variable name):
-    `(group, heap_g, last_haplotype, last_orig, self_groups)` — the ONLY place that knows this order -/
-def SS.pack (s : SS) : Nat × List PyRt.GData × Option Str × Option Str × Option (List Nat) :=
-  (s.pre.length, s.pre ++ [s.cur], s.lh, s.lo, some s.refs)
+/-- the loop state of the translated `build_groups` in the order the translator lists it (by the Lean text of the type, then by variable name):
+    `(heap_g, self_groups, last_haplotype, last_orig, group)` — the ONLY place that knows this order -/
+def SS.pack (s : SS) : List PyRt.GData × Option (List Nat) × Option Str × Option Str × Nat :=
+  (s.pre ++ [s.cur], some s.refs, s.lh, s.lo, s.pre.length)
 
 /-- one pass of the source's loop body in normal form (hand-written; `build_groups_loop` shows the generated body computes this) -/
 def srcStep (heap_b : List Scaffold) (keys : List Str) (s : SS) (e : Str × Nat) : R SS :=
